@@ -202,6 +202,47 @@ func runC12case(t *vf.T, c c12case) {
 					t.Count("concurrent_scan_groups", 1)
 				}
 				doScan(op.R, r, k, fmt.Sprintf("(step %d)", oi))
+			case "scanmid":
+				// a scanner is open (K rows read) when the result is discarded, and reads on: the
+				// scan must end with all rows of the result or with an error, never short and clean
+				done := make(chan struct{})
+				var rows []row
+				var err error
+				go func() {
+					defer close(done)
+					defer func() {
+						if e := recover(); e != nil {
+							err = fmt.Errorf("panic: %v", e)
+							violate("scan-panic exec="+ex, fmt.Sprintf("scan of result %d panicked after a discard in mid scan: %v at %s", op.R, e, panicSiteNow()))
+						}
+					}()
+					rows, err = scanRowsThen(bgctx, r.res, op.K, func() {
+						mu.Lock()
+						r.damage()
+						mu.Unlock()
+						r.res.Discard(bgctx)
+					})
+				}()
+				select {
+				case <-done:
+				case <-time.After(90 * time.Second):
+					mu.Lock()
+					timedOut = true
+					mu.Unlock()
+					dumpGoroutines("c12-scanmid-" + run)
+					return
+				}
+				t.Count("discards", 1)
+				t.Count("discards_in_mid_scan", 1)
+				if err != nil {
+					t.Count("scans_that_reported_error_after_discard_or_loss", 1)
+					return
+				}
+				if d := compareResult(rows, r.want); d != "" {
+					violate(fmt.Sprintf("scan-rows-differ result=discarded-in-mid-scan exec=%s", ex), fmt.Sprintf("result %d was discarded after %d rows of a scan had been read; the scan then ended without error: %s", op.R, op.K, d))
+					return
+				}
+				t.Count("scans_ok_after_discard_or_loss", 1)
 			case "discard":
 				// mark first: a concurrent scan may observe the discard before it returns
 				mu.Lock()
@@ -315,6 +356,10 @@ func genC12(rnd *vf.Rand, conf sessConf, maxOps int) c12case {
 		r := rnd.Intn(len(rels))
 		switch x := rnd.Intn(10); {
 		case x < 3:
+			if rnd.Chance(0.25) {
+				c.Ops = append(c.Ops, c12op{Op: "scanmid", R: r, K: rnd.Pick(0, 1, 100, 129, 300)})
+				break
+			}
 			c.Ops = append(c.Ops, c12op{Op: "scan", R: r, K: rnd.Pick(1, 1, 2, 4), Conc: rnd.Chance(0.3)})
 		case x < 7:
 			r2 := rnd.Intn(len(rels))
@@ -373,6 +418,15 @@ func runC12(r *vf.Runner) {
 				d.Nodes = append(d.Nodes, PNode{Op: op, In: []int{0}, Salt: 4})
 			}
 			c := c12case{Conf: conf, Base: base, Ops: []c12op{{Op: "derive", R: 0, Spec: &d}, {Op: "scan", R: 0, K: 3}, {Op: "discard", R: 0}, {Op: "derive", R: 0, Spec: &d}, {Op: "scan", R: 0, K: 2}, {Op: "scan", R: 1}}}
+			r.Case(c, func(t *vf.T) { runC12case(t, c) })
+		}
+	}
+	// a result discarded while a scanner over it is open, at several depths; then reused
+	for _, k := range []int{0, 1, 100, 129, 300} {
+		for _, conf := range []sessConf{localP4, bmk} {
+			base := Spec{Nodes: []PNode{{Op: "const", Shards: 3, Rows: 1200, Out: []string{"int", "int64"}, Salt: 3, Mod: 10}, {Op: "filter", In: []int{0}, P: 5, Salt: 2}}}
+			d := Spec{Nodes: []PNode{{Op: "arg", Arg: 0}, {Op: "reduce", In: []int{0}, Fold: "sum"}}}
+			c := c12case{Conf: conf, Base: base, Ops: []c12op{{Op: "scanmid", R: 0, K: k}, {Op: "derive", R: 0, Spec: &d}, {Op: "scan", R: 0}, {Op: "scan", R: 1}}}
 			r.Case(c, func(t *vf.T) { runC12case(t, c) })
 		}
 	}
